@@ -417,6 +417,8 @@ class SStr(V):
         for a in self.atoms:
             if isinstance(a, Num):
                 out += num_axioms(a)
+            elif isinstance(a, JoinAtom):
+                out.append(a.length() >= 0)
         return out
 
     def __repr__(self):
